@@ -246,6 +246,7 @@ class Unrolling:
         self.spurious = spurious
         self.por = por
         self.symmetric = symmetric
+        self.query_timeout_s = 1500
         ks = system.ks
         T = system.model.nthreads
         self.T = T
@@ -395,8 +396,12 @@ class Unrolling:
         # bit-blasting pipeline; `solve-eqs` turns the next-state equalities into a functional (variable free)
         # encoding, `aig` compresses the circuit (measured: 100x faster than the default QF_BV strategy here)
         s = z3.Then("simplify", "propagate-values", "solve-eqs", "simplify", "bit-blast", "aig", "sat").solver()
+        timeout_s = timeout_s or self.query_timeout_s
         if timeout_s:
-            s.set("timeout", int(timeout_s * 1000))
+            try:
+                s.set("timeout", int(timeout_s * 1000))
+            except z3.Z3Exception:
+                pass
         s.add(*self.cons)
         s.add(*extra)
         t0 = time.time()
